@@ -147,6 +147,8 @@ def r16_3(ctx):
 def r16_2(ctx):
     """Observers are pure."""
     ai = smf.make_interp(ctx)
+    from .. import strdom
+    strdom.install(ai)          # __repr__ builds text from the (symbolic) contents
     cls = ctx.p.cls(MF, 'MidiFile')
     ai.summaries['print'] = lambda i, a, k, n: None
     n = 0
